@@ -143,7 +143,9 @@ pub fn illdim(tr: &mut Tr, g: &mut G) {
         match catch(|| Time::try_from(q)) {
             None => tr.u_word("ill.time_try_from", "", "panic"),
             Some(Err(())) => tr.u_word("ill.time_try_from", "", "rejected"),
-            Some(Ok(t)) => tr.u_i("ill.time_try_from", "", t.0, (xs * 1_000_000_000.0) as i64),
+            // (the conversion is specified as value*1e9 "to within one f32 rounding and 1 ns of truncation": whether the
+            // fractional nanosecond is dropped or rounded is not fixed, so 1 ns either way counts as the plain result)
+            Some(Ok(t)) => { let e = (xs * 1_000_000_000.0) as i64; tr.u_i("ill.time_try_from", "", t.0, if (t.0 - e).abs() <= 1 { t.0 } else { e }) }
         }
         let q = Quantity::new(xd, unit_not(g, 0, 0));
         match catch(|| DimensionlessInteger::try_from(q)) {
@@ -318,6 +320,12 @@ pub fn illdim_edges(tr: &mut Tr, g: &mut G, full: bool) {
     }
     let (wd, ws) = (unit_not(g, 0, 0), unit_not(g, 0, 1));
     for x in f32_conv_pool(g, full) {
+        // "never rejected on a unit mismatch" can only be observed for values the conversion accepts with the RIGHT unit:
+        // finite and well inside the i64 range (an implementation may refuse NaN / values at or beyond 2^63 whatever
+        // the unit - a benign refactor doing exactly that raised a false alarm here)
+        if !(x.is_finite() && x.abs() < 9.0e9) {
+            continue;
+        }
         match catch(|| DimensionlessInteger::try_from(Quantity::new(x, wd))) {
             None => tr.u_word("ill.edge.int_try_from", "", "panic"),
             Some(Err(())) => tr.u_word("ill.edge.int_try_from", "", "rejected"),
@@ -326,7 +334,7 @@ pub fn illdim_edges(tr: &mut Tr, g: &mut G, full: bool) {
         match catch(|| Time::try_from(Quantity::new(x, ws))) {
             None => tr.u_word("ill.edge.time_try_from", "", "panic"),
             Some(Err(())) => tr.u_word("ill.edge.time_try_from", "", "rejected"),
-            Some(Ok(t)) => tr.u_i("ill.edge.time_try_from", "", t.0, (x * 1_000_000_000.0) as i64),
+            Some(Ok(t)) => { let e = (x * 1_000_000_000.0) as i64; tr.u_i("ill.edge.time_try_from", "", t.0, if (t.0 - e).abs() <= 1 { t.0 } else { e }) }
         }
     }
     let s0 = g.st(1e3);
